@@ -190,6 +190,11 @@ H("h_reified::reified_leq_1_change", "pumpkin-solver", "reified", ALLO, "quick",
   "x1 any interval; r in {free,true,false}; c; one symbolic change (to r or x1); V,W",
   "r -> x1<=c, posting + 1 change with notify through the watch table", full_range=True,
   covers=["propagation at posting with live witness", "propagation after a change"], timeout=3000, mem_gb=20)
+H("h_reified_ne::reified_ne_1_change", "pumpkin-solver", "reified", ALLO, "quick",
+  REIF + LIN_NE,
+  "x1 any interval; r in {free,true,false}; c any i32; one symbolic change (to r or x1); V,W",
+  "r -> x1 != c, posting + 1 change with notify through the watch table, unwind 4",
+  full_range=True, covers=[], timeout=2400, mem_gb=20)
 WRAP = REIF + ["inner propagator: harness-defined model `UpperBoundModel` (x1 <= c, implements "
               "detect_inconsistency) - the generic wrapper is the code under test"]
 H("h_wrapper::wrapper_interrupted", "pumpkin-solver", "reified", ALLO, "quick", WRAP,
